@@ -348,12 +348,79 @@ func (r *valRun) judge(t *testing.T, c *ValCase, edits []Edit, first bool) {
 	}
 }
 
+// applyBulk pads the chosen log's roots_pem_file (a list of paths validation does not look at) with
+// one long entry - plus, where varint length steps make the exact size unreachable with one, a short
+// second one - so that the binary encoding reaches the requested size. Returns an evidence class.
+func (c *ValCase) applyBulk() string {
+	b := c.Bulk
+	if b.Log < 0 || b.Log >= len(c.Logs) {
+		return "bulk:no-such-log"
+	}
+	c.Logs = append([]RawLog(nil), c.Logs...) // the padded copy is local to this run
+	base := c.Logs[b.Log].Roots
+	want := b.Target + b.Delta
+	size := func() int {
+		var m proto.Message
+		switch {
+		case c.Multi:
+			m = c.multiProto()
+		case b.Mode == "entry":
+			m = &configpb.LogConfigSet{Config: logsOf(c.Logs[:b.Log+1])}
+		default:
+			m = &configpb.LogConfigSet{Config: logsOf(c.Logs)}
+		}
+		return proto.Size(m)
+	}
+	for extra := -1; extra < 6; extra++ {
+		n := 0
+		for iter := 0; iter < 8; iter++ {
+			roots := append(append([]string(nil), base...), "/"+strings.Repeat("d", n))
+			if extra >= 0 {
+				roots = append(roots, strings.Repeat("x", extra))
+			}
+			c.Logs[b.Log].Roots = roots
+			d := want - size()
+			if d == 0 {
+				where := "file"
+				if !c.Multi && b.Mode == "entry" {
+					where = "entry"
+					if b.Log == len(c.Logs)-1 {
+						where = "last-entry"
+					}
+				}
+				return fmt.Sprintf("bulk:%s-ends-at-2^%d%+d", where, bitsOf(b.Target), b.Delta)
+			}
+			n += d
+			if n < 0 {
+				c.Logs[b.Log].Roots = base
+				return "bulk:already-larger"
+			}
+		}
+	}
+	return "bulk:size-not-reached-exactly"
+}
+
+func bitsOf(n int) int {
+	k := 0
+	for n > 1 {
+		n >>= 1
+		k++
+	}
+	return k
+}
+
 // checkVal judges the configuration, then - when it was broken on purpose - its well-formed twin (the
 // state just before the invalidating edits; frozen STH signatures byte-identical), then the broken one
 // again: validation must not depend on what the process validated before.
 func checkVal(t *testing.T, c ValCase) (v harness.Verdict) {
 	ct.AllowVerificationWithNonCompliantKeys = false
 	resetSignatures()
+	harness.SetKlogVerbosity(c.Verbosity)
+	defer harness.SetKlogVerbosity(0)
+	v.Class(fmt.Sprintf("klog-v=%d", c.Verbosity))
+	if c.Bulk != nil {
+		v.Class(c.applyBulk())
+	}
 	r := &valRun{v: &v, seen: map[string]bool{}}
 	r.judge(t, &c, c.Edits, true)
 	if c.Twin != nil {
